@@ -81,7 +81,12 @@ impl Display for ErrorEntry<'_> {
 
 impl LocatedError for ErrorEntry<'_> {
     fn span(&self) -> Span {
-        (self.location, 1)
+        // The span covers the character at the location, if any. At the end of input, the span is
+        // empty.
+        (
+            self.location,
+            self.fragment.chars().next().map_or(0, char::len_utf8),
+        )
     }
 }
 
